@@ -554,7 +554,7 @@ func c17Gen(r *rand.Rand, tier string) []Case {
 			}
 		}
 		names = append(names, sx.A(950+r.Intn(20))) // an unknown name
-		names = append(names, sx.A(5000+r.Intn(3)))   // skip / include / deprecated: directives, not types
+		names = append(names, sx.A(5000+r.Intn(3))) // skip / include / deprecated: directives, not types
 		for _, it := range w {
 			if it.K == kDirective && r.Intn(2) == 0 {
 				names = append(names, sx.A(5000+it.N))
